@@ -43,7 +43,8 @@ var errRPMIndex = errors.New("RPM header index entry exceeds the header's data")
 
 // rpmCheckIndex walks the signature header and the main header of an RPM file and
 // verifies that every index entry describes data that lies inside its header's store.
-// go-rpm does not: it indexes past the store when the strings of a string array are not
+// go-rpm does not: it allocates count*size bytes for an integer entry before looking at
+// the store, and it indexes past the store when the strings of a string array are not
 // terminated inside it.
 // Anything else that is wrong with the file (bad magic, truncation) is left for go-rpm
 // to report.
@@ -78,6 +79,14 @@ func rpmCheckIndex(data []byte) error {
 			avail := size - offset
 			ok := true
 			switch typ {
+			case rpm.IndexDataTypeChar, rpm.IndexDataTypeInt8, rpm.IndexDataTypeBinary:
+				ok = count <= avail
+			case rpm.IndexDataTypeInt16:
+				ok = count <= avail/2
+			case rpm.IndexDataTypeInt32:
+				ok = count <= avail/4
+			case rpm.IndexDataTypeInt64:
+				ok = count <= avail/8
 			case rpm.IndexDataTypeString, rpm.IndexDataTypeStringArray, rpm.IndexDataTypeI8NString:
 				ok = count <= avail && rpmStringsFit(store[offset:], int(count))
 			}
